@@ -46,6 +46,19 @@ Proof.
     apply existsb_exists in C. exact C.
 Qed.
 
+Lemma is_translate_t_spec : forall S vs i o' c r', is_translate_t S vs i o' c r' = true ->
+  let a' := if fst r' =? Z.of_nat o' then snd r' else fst r' in
+  finite r' = true /\ (fst r' =? Z.of_nat o') || (snd r' =? Z.of_nat o') = true /\
+  in_unit S (vat vs a') = false /\ img S vs a' = Z.to_nat i /\ cell_pt S (vat vs a') = pt_opp c.
+Proof.
+  intros S vs i o' c r' H a'. unfold is_translate_t in H. fold a' in H.
+  destruct (finite r' && ((fst r' =? Z.of_nat o') || (snd r' =? Z.of_nat o'))) eqn:E1; [|discriminate].
+  apply andb_true_iff in E1. destruct E1 as [F Ho].
+  destruct (in_unit S (vat vs a')) eqn:E2; [discriminate|].
+  destruct (img S vs a' =? Z.to_nat i)%nat eqn:E3; [|discriminate].
+  apply Nat.eqb_eq in E3. apply pt_eqb_eq in H. auto.
+Qed.
+
 Lemma crossing_ends_t : forall S vs rv r, pvor_t S vs rv -> In r (select S vs 1 rv) ->
   In r rv /\ finite r = true /\
   0 <= fst r < Z.of_nat (length vs) /\ 0 <= snd r < Z.of_nat (length vs) /\
@@ -99,8 +112,7 @@ Proof.
     split; [rewrite Ep; unfold dir_edge; rewrite Ei, Eo; reflexivity|]. split; [exact Ep|].
     split; [rewrite Ep; unfold is_loop; simpl; auto|]. split; [exact Hce|]. split; [exact T1|].
     split; [apply nearest_spec; exact Hne|].
-    unfold is_translate_t in Ht. rewrite !andb_true_iff in Ht. destruct Ht as ((((F & Ho) & Un) & Im) & Ce).
-    apply negb_true_iff in Un. apply Nat.eqb_eq in Im. apply pt_eqb_eq in Ce.
+    destruct (is_translate_t_spec _ _ _ _ _ _ Ht) as (F & Ho & Un & Im & Ce).
     destruct r' as [x y]. simpl in *. apply orb_true_iff in Ho.
     destruct (Z.eqb_spec x (Z.of_nat (img S vs b))) as [Ex|Nx].
     + exists (x, y), y. subst x. repeat (split; [auto|]). auto.
@@ -115,8 +127,7 @@ Proof.
     split; [rewrite Ep; unfold is_loop; simpl; auto|].
     split; [rewrite (pedge_rev S vs (vat vs a) (vat vs b)), rev_edge_invol; tauto|]. split; [exact T1|].
     split; [apply nearest_spec; exact Hne|].
-    unfold is_translate_t in Ht. rewrite !andb_true_iff in Ht. destruct Ht as ((((F & Ho) & Un) & Im) & Ce).
-    apply negb_true_iff in Un. apply Nat.eqb_eq in Im. apply pt_eqb_eq in Ce.
+    destruct (is_translate_t_spec _ _ _ _ _ _ Ht) as (F & Ho & Un & Im & Ce).
     destruct r' as [x y]. simpl in *. apply orb_true_iff in Ho.
     destruct (Z.eqb_spec x (Z.of_nat (img S vs a))) as [Ex|Nx].
     + exists (x, y), y. subst x. repeat (split; [auto|]). auto.
